@@ -764,7 +764,8 @@ def real_block_boc():
     for root in (core.REPO, '/repo'):
         p = os.path.join(root, 'tests', 'test_cell.py')
         if os.path.exists(p):
-            m = re.search(r"block_boc = '([A-Za-z0-9+/=]+)'", open(p).read())
+            with open(p) as fh:
+                m = re.search(r"block_boc = '([A-Za-z0-9+/=]+)'", fh.read())
             if m:
                 return base64.b64decode(m.group(1))
     raise FileNotFoundError('tests/test_cell.py with block_boc not found')
